@@ -145,9 +145,15 @@ class SymSession(_Base):
         self.ctx = ctx
 
     # ----- inputs
-    def real(self, name, nan=False, lo=None, hi=None):
+    def real(self, name, nan=False, lo=None, hi=None, nan_from=None):
+        """nan_from: share the missing-flag of another input (same missingness
+        pattern, independent value)."""
         v = z3.Real(name)
-        nv = z3.Bool(name + "?") if nan else None
+        if nan_from is not None:
+            nv = z3.Bool(nan_from + "?")
+            nan = True
+        else:
+            nv = z3.Bool(name + "?") if nan else None
         self.ctx.inputs[name] = ("real", nv, v)
         self.ctx.input_order.append(name)
         if lo is not None:
@@ -259,7 +265,7 @@ class ConcSession(_Base):
             raise KeyError("replay input %r missing" % name)
         return self.inputs[name]
 
-    def real(self, name, nan=False, lo=None, hi=None):
+    def real(self, name, nan=False, lo=None, hi=None, nan_from=None):
         return np.float64(self._get(name))
 
     def integer(self, name, lo=None, hi=None):
